@@ -428,6 +428,8 @@ def make(seed, **kw):
         return make_overlap(seed)
     if kw.pop('blockranges', False) and seed % 5 == 4:
         return make_blockrange(seed)
+    if kw.pop('dense', False) and seed % 5 == 3:
+        return make_dense(seed)
     if kw.pop('case_titles', False) and 'sheets' not in kw:
         if seed % 4 == 3:
             kw['sheets'] = LAYOUT_CASE
@@ -518,6 +520,34 @@ def make_overlap(seed):
     g.cells[f2] = {'k': 'f', 'e': ['fn', fn2, [rect(3, 4, 1, 2)]]}           # 4 cells, 1 blank
     g.order += [f1, f2]
     g.directed = [[at(3)], [at(2)], [at(3), at(1)], [at(4)]]
+    g.seed = seed
+    return g
+
+
+def make_dense(seed):
+    """A fully populated range that does not depend on the cells named as inputs (it is
+    pre-computed when a function is compiled) next to formulas that combine it with an
+    input cell: g.directed names the inputs worth trying."""
+    rnd = random.Random(seed * 71 + 7)
+    g = Gen(rnd, sheets=LAYOUT[:1], features=())
+    b, s = LAYOUT[0]
+    vert = rnd.random() < 0.5
+    n = rnd.randint(2, 3)
+    line = [cid(b, s, 1, k) if vert else cid(b, s, k, 1) for k in range(1, n + 1)]
+    for i in line:
+        g.cells[i] = {'k': 'c', 'v': norm(rnd.choice(NUMS))}
+        g.order.append(i)
+    rect = ['rng', b, s, 1, 1, 1, n] if vert else ['rng', b, s, 1, 1, n, 1]
+    in1, in2 = cid(b, s, 4, 4), cid(b, s, 4, 5)
+    for i in (in1, in2):
+        g.cells[i] = {'k': 'c', 'v': norm(rnd.choice(NUMS))}
+        g.order.append(i)
+    f1, f2, f3 = cid(b, s, 5, 1), cid(b, s, 5, 2), cid(b, s, 5, 3)
+    g.cells[f1] = {'k': 'f', 'e': ['op', rnd.choice(['*', '+']), ['fn', 'SUM', [rect]], ['ref', in1]]}
+    g.cells[f2] = {'k': 'f', 'e': ['op', '+', ['fn', rnd.choice(['MAX', 'SUM', 'COUNT']), [rect]], ['ref', in2]]}
+    g.cells[f3] = {'k': 'f', 'e': ['op', '+', ['ref', f1], ['ref', f2]]}
+    g.order += [f1, f2, f3]
+    g.directed = [[in1], [in2], [in1, in2]]
     g.seed = seed
     return g
 
